@@ -5,21 +5,24 @@ import ast
 
 # pylint: disable=invalid-name
 class CollectAnnotationLines(ast.NodeVisitor):
-  """Collect line numbers of annotations to augment."""
+  """Collect the end positions of annotations to augment."""
 
   def __init__(self):
-    self.annotation_lines = []
-    self.in_function = False
+    # (0-based line, end column as a utf-8 byte offset) of each bare annotation.
+    self.annotation_ends = []
+    self.function_depth = 0
 
   def visit_AnnAssign(self, node):
-    if self.in_function and node.value is None:
-      self.annotation_lines.append(node.end_lineno - 1)  # change to 0-based
+    if self.function_depth and node.value is None:
+      self.annotation_ends.append((node.end_lineno - 1, node.end_col_offset))
 
   def visit_FunctionDef(self, node):
-    self.in_function = True
+    self.function_depth += 1
     for n in node.body:
       self.visit(n)
-    self.in_function = False
+    self.function_depth -= 1
+
+  visit_AsyncFunctionDef = visit_FunctionDef
 
 
 # pylint: enable=invalid-name
@@ -34,12 +37,13 @@ def augment_annotations(src):
     return src
   visitor = CollectAnnotationLines()
   visitor.visit(tree)
-  if visitor.annotation_lines:
+  if visitor.annotation_ends:
     lines = src.split("\n")
-    for i in visitor.annotation_lines:
-      # Preserve comments, as they may be pytype directives. We don't bother to
-      # keep the formatting, since users never see the transformed source code.
-      line, mark, comment = lines[i].partition("#")
-      lines[i] = line + " = ..." + mark + comment
+    # Insert right after the annotation (not at the end of the line), so that
+    # comments, `#` inside string literals and `;`-separated statements are
+    # left alone. Work backwards so that earlier offsets stay valid.
+    for i, col in sorted(visitor.annotation_ends, reverse=True):
+      line = lines[i].encode("utf-8")
+      lines[i] = (line[:col] + b" = ..." + line[col:]).decode("utf-8")
     src = "\n".join(lines)
   return src
